@@ -68,3 +68,19 @@ Example C04_examples :
   is_ok (process 3 (ctx_new default_device) OLdi [OR8 16; OE (EConst 255)] 0) = true /\
   In "movw" all_names /\ (40000 <? N.of_nat (List.length window))%N = true.
 Proof. vm_compute. repeat split; try reflexivity. repeat (first [left; reflexivity | right]). Qed.
+
+(** IN A PROGRAM.  No error is dropped: in every build pass 2 accepts, every item of every segment - wherever the segment stands in
+    the list, whatever follows it - was accepted by pass 2; in particular every instruction was passed by the device gate and
+    encoded by the encoder, so [C04_values_in_range] holds of each of them: an image never contains a statement the ISA cannot encode. *)
+Require Import AvraV.Model.Parse AvraV.Model.Passes AvraV.Proofs.BranchProofs.
+Theorem C04_no_error_is_dropped : forall fuel c segs r2,
+  pass2 fuel c segs = Ok r2 ->
+  forall pre sg post ipre ci ipost, segs = (pre ++ sg :: post)%list -> items sg = (ipre ++ ci :: ipost)%list ->
+  exists st st', pass2_item fuel (seg_t sg) st ci = Ok st'.
+Proof. exact pass2_accepts_every_item. Qed.
+Theorem C04_every_instruction_encoded : forall fuel c segs r2,
+  pass2 fuel c segs = Ok r2 ->
+  forall pre sg post ipre cp op args ipost, segs = (pre ++ sg :: post)%list -> items sg = (ipre ++ (cp, IInstr op args) :: ipost)%list ->
+  exists cx pc bs, process fuel cx op args pc = Ok bs /\ check_instruction (dev cx) op args = true.
+Proof. exact pass2_encodes_every_instruction. Qed.
+Print Assumptions C04_every_instruction_encoded.
